@@ -250,20 +250,27 @@ impl<W: Write> Runner<W> {
             // a zero-slot table is not probed for observation (entries "not observed": -3), so that
             // it is the operations themselves that meet it
             let observe = entries(self.size) > 0;
-            for k in &self.pool {
+            // The pool is swept alternately forwards and backwards, so that the first key looked up after an
+            // operation is the last key looked up before it (a table that remembers its last lookup must not
+            // carry that memory across a resize / reset); results are stored by pool position either way.
+            let np = self.pool.len();
+            let mut got: Vec<String> = vec![UNOBSERVED.to_string(); np];
+            let backwards = self.events % 2 == 1;
+            for step in 0..np {
                 if !observe {
-                    c.push(UNOBSERVED.to_string());
                     continue;
                 }
-                let key = ZobristHash(*k);
+                let i = if backwards { np - 1 - step } else { step };
+                let key = ZobristHash(self.pool[i]);
                 match catch_unwind(AssertUnwindSafe(|| show(tt.get(&key)))) {
-                    Ok(s) => c.push(s),
+                    Ok(s) => got[i] = s,
                     Err(e) => {
-                        c.push(PANICKED.to_string());
+                        got[i] = PANICKED.to_string();
                         obs_panic = Some(panic_msg(e));
                     }
                 }
             }
+            c.extend(got);
         } else {
             for _ in &self.pool {
                 c.push(PANICKED.to_string());
